@@ -145,7 +145,12 @@ def run_check(prop, tier, seed, replay=None):
         ctx.scale = max(ctx.scale, 6)
         ctx.pins_moved = moved
     # 1. regenerate translated model from the working tree
-    for r in regen.regen_all(vc.REPO):
+    only = None
+    if os.path.realpath(vc.REPO) != '/repo' and os.path.realpath(vc.VERIF) == '/verif':
+        # a run of the shared /verif against a scratch copy of the repository (mutation experiments): regenerate
+        # only this property's targets, so that generated files other running checks depend on are left alone
+        only = set(getattr(mod, 'GEN_TARGETS', ()))
+    for r in regen.regen_all(vc.REPO, only):
         if r['target'] in getattr(mod, 'GEN_TARGETS', ()):
             ctx.ob(f'translate:{r["target"]}', r['ok'], 'translate', r['detail'])
     # 2. build theorems
